@@ -20,7 +20,13 @@ pub const FORMATS: [NewickFormat; 9] = [
 /// whitespace sit inside verbatim double quotes
 fn gen_name(rng: &mut Rng, uniq: usize) -> String {
     let plain = ["A", "tip", "x_1", "é", "名前", "a.b-c", "T'", "0", "1e5", "nan", "#", "a|b", "€uro"];
-    match rng.below(10) {
+    match rng.below(14) {
+        // backslashes are ordinary characters of a label (the format has no escapes): inside a label, at its end,
+        // directly before an opening or a closing double quote
+        10 => format!("a\\b{}", uniq),
+        11 => format!("dir{}\\", uniq),
+        12 => format!("\"D:\\runs\\sample {}\\\"", uniq),
+        13 => format!("p{}\\\"q r\"", uniq),
         0..=5 => format!("{}{}", rng.pick(&plain), uniq),
         6 => format!("\"{} {}\"", rng.pick(&plain), uniq),
         7 => format!("\"a(b),c:d;[e]{}\"", uniq),
@@ -64,7 +70,14 @@ pub fn label_c01(rng: &mut Rng, t: &mut Rose, kind: LenKind, len_mode: LenMode) 
 
 fn build(rng: &mut Rng, r: &Rose) -> (Tree, &'static str, u64) {
     let seed = rng.next() % 1_000_000;
-    match rng.below(4) {
+    match rng.below(6) {
+        4 | 5 => {
+            // regrouped / resolved after the API build: parents with LARGER ids than their descendants, fresh unnamed
+            // internal nodes (the caller re-reads the tree that was actually built)
+            let mut st = crate::real::RealState::new();
+            let (a, _) = st.exec(&format!("real.build\tgrown\t{}\t{seed}", r.canon()));
+            if a == "ok" { (st.tree, "grown", seed) } else { (build_api(r), "api", 0) }
+        }
         0 => (build_api(r), "api", 0),
         1 => (build_api_bfs(r), "bfs", 0),
         2 => (build_with_tombstones(r, &mut Rng::new(seed)), "tomb", seed),
@@ -124,6 +137,12 @@ fn do_job(job: Job, driver: &str, rep: &mut Report) {
         let mode = *rng.pick(&[LenMode::All, LenMode::None, LenMode::Mixed, LenMode::Mixed]);
         label_c01(&mut rng, &mut r, kind, mode);
         let (tree, how, bseed) = build(&mut rng, &r);
+        if how == "grown" {
+            match rose_of_tree(&tree) {
+                Some(actual) => r = actual,
+                None => continue,
+            }
+        }
         rep.count(&format!("layout:{how}"));
         rep.count(&format!("lengths:{kind:?}/{mode:?}"));
         let canon = r.canon();
